@@ -32,6 +32,15 @@
 (* offsets and lengths), ListEndsAtTerminator, IndexResolves, BlocksTile,   *)
 (* ClassifyTotal.                                                           *)
 (*                                                                         *)
+(* Debugging entries that designate SEVERAL lists (DWARF 2.2: an entry has  *)
+(* any number of attributes, each at most once; e.g. DW_AT_location with    *)
+(* its DW_AT_GNU_locviews next to DW_AT_frame_base / DW_AT_segment ... in   *)
+(* list form): the references of a unit are packed into entries by the      *)
+(* section's `pack` = [n: references per entry, rev: attribute order        *)
+(* reversed] (GroupRefs; mode "sections", location sections only: a range   *)
+(* list is designated by DW_AT_ranges alone).  TLC checks GroupsOk (every   *)
+(* reference in exactly one entry, attribute names of an entry distinct).   *)
+(*                                                                         *)
 (* Not asserted (the standard or the documented API does not fix it):       *)
 (*  - order of enumeration (compared as multisets of lists);                *)
 (*  - begin/end of a DW_LLE_default_location entry beyond the documented -1;*)
@@ -51,7 +60,7 @@
 (***************************************************************************)
 EXTENDS DwarfForms, TLC, Json, CSV, IOUtils
 
-CONSTANTS Modes, MaxLen, MaxBlocks
+CONSTANTS Modes, MaxLen, MaxBlocks, MaxPackBlocks
 
 VARIABLES mode, sec, fin, tag
 vars == <<mode, sec, fin, tag>>
@@ -378,6 +387,19 @@ Refs(s, k) ==
       all == direct \o sfx \o idx \o ex
   IN [p \in 1..Len(all) |-> [j |-> all[p].j, form |-> all[p].form, ix |-> all[p].ix, skip |-> all[p].skip, vw |-> all[p].vw,
                              name |-> IF all[p].vw \/ all[p].j = 0 THEN "DW_AT_location" ELSE NameAt(s.which, b.ver, p)]]
+\* packing of the references into debugging entries: greedily, at most n references per entry, attribute names of
+\* an entry pairwise distinct (DWARF 2.2); a group = the positions (in Refs) of the references one entry carries
+Pack1 == [n |-> 1, rev |-> FALSE]
+PackOf(s) == IF "pack" \in DOMAIN s THEN s.pack ELSE Pack1
+RECURSIVE GroupRefs(_, _, _, _)
+GroupRefs(refs, p, n, acc) ==
+  IF p > Len(refs) THEN acc
+  ELSE LET cur == IF acc = <<>> THEN <<>> ELSE acc[Len(acc)]
+           fits == acc # <<>> /\ Len(cur) < n /\ \A q \in 1..Len(cur) : refs[cur[q]].name # refs[p].name
+       IN IF fits THEN GroupRefs(refs, p + 1, n, [acc EXCEPT ![Len(acc)] = Append(@, p)])
+          ELSE GroupRefs(refs, p + 1, n, Append(acc, <<p>>))
+Groups(s, k) == GroupRefs(Refs(s, k), 1, PackOf(s).n, <<>>)
+EntryOf(grps, p) == CHOOSE g \in 1..Len(grps) : \E q \in 1..Len(grps[g]) : grps[g][q] = p
 \* the section offset a reference designates
 RefTarget(s, ly, k, r) ==
   IF r.skip = 0 THEN ly[k].loffs[r.j] ELSE RawViews(s, s.blocks[k].items[r.j].es, ly[k].loffs[r.j])[r.skip + 1].o
@@ -395,9 +417,13 @@ UnitOf(s, ly, k, aoff, abase) ==
                    ELSE IF r.vw THEN <<A(DirectForm(b), N(ly[k].ioffs[r.j])), A(r.form, N(RefTarget(s, ly, k, r)))>>
                    ELSE IF r.ix >= 0 THEN <<A(r.form, B(UlebOfNat(r.ix)))>>
                    ELSE <<A(r.form, N(RefTarget(s, ly, k, r)))>>
-      decls == <<Decl(1, TagCU, TRUE, rootspecs)>> \o [p \in 1..Len(refs) |-> Decl(p + 1, TagVariable, FALSE, cspecs(p))]
+      grps == Groups(s, k)
+      ord(g) == IF PackOf(s).rev THEN Rev(grps[g]) ELSE grps[g]
+      gspecs(g) == LET o == ord(g) IN Flat([q \in 1..Len(o) |-> cspecs(o[q])])
+      gattrs(g) == LET o == ord(g) IN Flat([q \in 1..Len(o) |-> cattrs(o[q])])
+      decls == <<Decl(1, TagCU, TRUE, rootspecs)>> \o [g \in 1..Len(grps) |-> Decl(g + 1, TagVariable, FALSE, gspecs(g))]
       encdie(code, attrs) == UlebOfNat(code) \o Flat([i \in 1..Len(attrs) |-> EncForm(attrs[i], c)])
-      body == encdie(1, rootattrs) \o Flat([p \in 1..Len(refs) |-> encdie(p + 1, cattrs(p))]) \o <<0>>
+      body == encdie(1, rootattrs) \o Flat([g \in 1..Len(grps) |-> encdie(g + 1, gattrs(g))]) \o <<0>>
   IN [abbrev |-> EncAbbrevs(decls), info |-> UnitBytes(c, aoff, body)]
 
 (* --------------------------- value alphabets --------------------------- *)
@@ -486,10 +512,14 @@ TplBlock(s, k, ver, fmt, oc) ==
       at(n) == IF s.gaps THEN (CASE n = 1 -> 2 [] n = 2 -> 4 [] n = 3 -> 5) ELSE n
   IN Blk(ver, fmt, oc, items, IF oc = 1 THEN <<at(2)>> ELSE IF oc = 3 THEN <<at(3), at(1), at(2)>> ELSE <<>>)
 FmtAt(fp, k) == IF fp = "32" THEN 32 ELSE IF fp = "64" THEN 64 ELSE IF k % 2 = 1 THEN 64 ELSE 32
-SecInit == {[which |-> w, lv |-> 5, asz |-> a, le |-> l, blocks |-> <<>>, fp |-> fp, gaps |-> g] :
-              w \in {"loc", "rng"}, a \in {4, 8}, l \in BOOLEAN, fp \in {"32", "64", "mix"}, g \in BOOLEAN}
-           \cup {[which |-> w, lv |-> 4, asz |-> x[1], le |-> x[2], blocks |-> <<>>, fp |-> "32", gaps |-> g] :
-              w \in {"loc", "rng"}, x \in {<<4, TRUE>>, <<8, FALSE>>}, g \in BOOLEAN}
+\* packings: one reference per entry; two per entry with the attributes in reverse order (a view pair comes last);
+\* three per entry (view pair first)
+Packs(w) == IF w = "loc" THEN {Pack1, [n |-> 2, rev |-> TRUE], [n |-> 3, rev |-> FALSE]} ELSE {Pack1}
+SecInit == UNION {{[which |-> w, lv |-> 5, asz |-> a, le |-> l, blocks |-> <<>>, fp |-> fp, gaps |-> g, pack |-> pk] :
+                     a \in {4, 8}, l \in BOOLEAN, fp \in {"32", "64", "mix"}, g \in BOOLEAN, pk \in Packs(w)}
+                  \cup {[which |-> w, lv |-> 4, asz |-> x[1], le |-> x[2], blocks |-> <<>>, fp |-> "32", gaps |-> g, pack |-> pk] :
+                     x \in {<<4, TRUE>>, <<8, FALSE>>}, g \in BOOLEAN, pk \in Packs(w)}
+                  : w \in {"loc", "rng"}}
 \* ---- mode "pair": a DWARF4 unit with .debug_loc/.debug_ranges next to DWARF5 units with .debug_loclists/.debug_rnglists
 PairSet == {LET s4 == [which |-> w, lv |-> 4, asz |-> a, le |-> l, blocks |-> <<>>, fp |-> "32", gaps |-> FALSE]
                 s5 == [which |-> w, lv |-> 5, asz |-> a, le |-> l, blocks |-> <<>>, fp |-> "mix", gaps |-> FALSE]
@@ -515,7 +545,7 @@ AddEntry(k) ==
 EndList == mode = "lists" /\ ~fin /\ fin' = TRUE /\ UNCHANGED <<mode, sec, tag>>
 \* block writer
 NewBlock(oc, vf) ==
-  /\ mode = "sections" /\ ~fin /\ Len(sec.blocks) < MaxBlocks
+  /\ mode = "sections" /\ ~fin /\ Len(sec.blocks) < (IF PackOf(sec).n > 1 THEN MaxPackBlocks ELSE MaxBlocks)
   /\ (sec.lv = 5 => vf = <<5, FmtAt(sec.fp, Len(sec.blocks) + 1)>>)
   /\ (sec.lv = 4 => oc = 0 /\ vf \in VerFmt4)
   /\ sec' = [sec EXCEPT !.blocks = Append(@, TplBlock(sec, Len(sec.blocks) + 1, vf[1], vf[2], oc))]
@@ -539,15 +569,15 @@ Units(ss, lys, i, k, aoff, abase) ==
            ab == IF is5 THEN abase + ILS(b.fmt) + 4 ELSE 0
            u == UnitOf(s, lys[i], k, aoff, ab)
            tb == IF is5 THEN AddrTabBytes(s.asz, s.le, b.fmt, g) ELSE <<>>
-           keys == ListKeys(s)   refs == Refs(s, k)
-           \* per reference: <<attribute name, form, kind, designated offset | expression bytes, list id, index>>
+           keys == ListKeys(s)   refs == Refs(s, k)   grps == Groups(s, k)
+           \* per reference: <<attribute name, form, kind, designated offset | expression bytes, list id, index, entry (child number)>>
            rv == [p \in 1..Len(refs) |->
                     LET r == refs[p] IN
-                    IF r.j = 0 THEN <<r.name, r.form, "expr", ExprBytes, 0, -1>>
-                    ELSE <<r.name, r.form, "list", RefTarget(s, lys[i], k, r), LId(keys, <<k, r.j, r.skip>>), r.ix>>]
+                    IF r.j = 0 THEN <<r.name, r.form, "expr", ExprBytes, 0, -1, EntryOf(grps, p)>>
+                    ELSE <<r.name, r.form, "list", RefTarget(s, lys[i], k, r), LId(keys, <<k, r.j, r.skip>>), r.ix, EntryOf(grps, p)>>]
            rest == Units(ss, lys, i, k + 1, aoff + Len(u.abbrev), abase + Len(tb))
        IN [info |-> u.info \o rest.info, abbrev |-> u.abbrev \o rest.abbrev, addr |-> tb \o rest.addr,
-           view |-> <<[sec |-> i, blk |-> k, ver |-> b.ver, fmt |-> b.fmt, addr_base |-> ab, refs |-> rv]>> \o rest.view]
+           view |-> <<[sec |-> i, blk |-> k, ver |-> b.ver, fmt |-> b.fmt, addr_base |-> ab, refs |-> rv, entries |-> Len(grps)]>> \o rest.view]
 Tiled(b) == \A j \in 1..Len(b.items) : b.items[j].t = "list" /\ b.items[j].vs = <<>>
 \* compact emission of a list view (lines must stay below the 8 KiB write buffer of CSVWrite): digit strings without
 \* leading zero digits, entries as tuples; a suffix list is emitted as <<id of the whole list, entries skipped>>
@@ -580,7 +610,7 @@ Case ==
   ELSE LET ss == SecsOf
            lys == TLCEval([i \in 1..Len(ss) |-> Lay(ss[i], 1, 0)])
            us == Units(ss, lys, 1, 1, 0, 0)
-       IN [mode |-> mode, tag |-> tag, le |-> ss[1].le, asz |-> ss[1].asz, info |-> us.info, abbrev |-> us.abbrev, addr |-> us.addr,
+       IN [mode |-> mode, tag |-> tag, pack |-> PackOf(ss[1]).n, le |-> ss[1].le, asz |-> ss[1].asz, info |-> us.info, abbrev |-> us.abbrev, addr |-> us.addr,
            secs |-> [i \in 1..Len(ss) |-> SecView(ss[i], lys[i], G0(ss, i))], units |-> us.view]
 Emit == fin => CSVWrite("%1$s", <<ToJson(Case)>>, IOEnv.OUT)
 
@@ -671,4 +701,16 @@ RefsAreLists ==
         \A p \in 1..Len(refs) :
           IF s.which = "rng" THEN "rnglist" \in AttrClasses(refs[p].name, s.blocks[k].ver) \cap FormClasses(refs[p].form, s.blocks[k].ver)
           ELSE Classify(refs[p].name, refs[p].form, s.blocks[k].ver) = (IF refs[p].j = 0 THEN {"expression"} ELSE {"list"})
+\* packing of references into debugging entries: every reference in exactly one entry (order kept), an entry carries 1..n
+\* references under pairwise distinct attribute names, and DW_AT_GNU_locviews only next to a DW_AT_location in list form
+GroupsOk ==
+  (fin /\ ListMode) =>
+    \A i \in 1..Len(SecsOf) : LET s == SecsOf[i] IN
+      \A k \in 1..Len(s.blocks) : LET refs == Refs(s, k)   grps == Groups(s, k) IN
+        /\ Flat(grps) = [p \in 1..Len(refs) |-> p]
+        /\ \A g \in 1..Len(grps) :
+             /\ Len(grps[g]) \in 1..PackOf(s).n
+             /\ \A q1, q2 \in 1..Len(grps[g]) : q1 # q2 => refs[grps[g][q1]].name # refs[grps[g][q2]].name
+             /\ \A q \in 1..Len(grps[g]) : refs[grps[g][q]].vw => refs[grps[g][q]].name = "DW_AT_location" /\ refs[grps[g][q]].j > 0
+        /\ (s.which = "rng" => \A g \in 1..Len(grps) : Len(grps[g]) = 1)
 =============================================================================
